@@ -19,21 +19,22 @@ From BS Require Import Abs.Assets Abs.AssetsProofs.
 Local Open Scope N_scope.
 
 (* the general form: the publisher changes only at quiescent states (the SAME peer may publish and
-   overwrite at any pace), fresh clients join at any moment outside the join window (S26 below):
-   at every quiescent state every peer holds the last published content *)
+   overwrite at any pace), fresh clients join at ANY moment (also while the host is still downloading
+   the asset: the defect S26 is repaired, 8b1d5d0): at every quiescent state every peer holds the last
+   published content *)
 Theorem C06_publishers_hand_over_at_quiescence :
   forall n w0 tr s',
-    arun (ainit n) tr = Some s' -> joins_ok (ainit n) tr -> handover_at_quiescence w0 (ainit n) tr = true ->
+    arun (ainit n) tr = Some s' -> fresh_joins tr -> handover_at_quiescence w0 (ainit n) tr = true ->
     aquiescent s' ->
     forall q, peers s' q -> pstore s' q = last (published tr).
-Proof. exact AssetsProofs.C06_handover. Qed.
+Proof. exact AssetsProofs.C06_handover_any_join. Qed.
 
 (* ONE publisher (host, client, or a client that joined later), any pace, overwrites included *)
 Theorem C06_single_publisher :
   forall n w tr s',
-    arun (ainit n) tr = Some s' -> only_publisher w tr -> joins_ok (ainit n) tr -> aquiescent s' ->
+    arun (ainit n) tr = Some s' -> only_publisher w tr -> fresh_joins tr -> aquiescent s' ->
     forall q, peers s' q -> pstore s' q = last (published tr).
-Proof. exact AssetsProofs.C06_single_publisher. Qed.
+Proof. exact AssetsProofs.C06_single_publisher_any_join. Qed.
 
 (* several publishers, every publication and join at a quiescent state *)
 Theorem C06_drain_separated :
@@ -42,14 +43,14 @@ Theorem C06_drain_separated :
     forall q, peers s' q -> pstore s' q = last (published tr).
 Proof. exact AssetsProofs.C06_drain_separated. Qed.
 
-(* a fresh client joining at any moment outside the window ends with the host's content *)
+(* a fresh client joining at ANY moment ends with the host's content *)
 Theorem C06_join_gets_asset :
   forall n w0 tr1 c tr2 s',
     let tr := tr1 ++ AJoin c None :: tr2 in
-    arun (ainit n) tr = Some s' -> joins_ok (ainit n) tr -> handover_at_quiescence w0 (ainit n) tr = true ->
+    arun (ainit n) tr = Some s' -> fresh_joins tr -> handover_at_quiescence w0 (ainit n) tr = true ->
     aquiescent s' ->
     c ∈ aconn s' /\ pstore s' c = pstore s' host /\ pstore s' c = last (published tr).
-Proof. exact AssetsProofs.join_gets_asset. Qed.
+Proof. exact AssetsProofs.join_gets_asset_any_join. Qed.
 
 (* no echo: a peer that never published never announces anything (its debounce counter covers
    exactly its unread events), in every reachable state, whatever the joins *)
@@ -99,22 +100,17 @@ Theorem C06_materials_traffic_bound :
     (mtotal_sent (minit n) tr <= length (mpublished tr) * (n + length (mjoins tr)) + length (mjoins tr))%nat.
 Proof. exact AssetsProofs.mtraffic_bound. Qed.
 
-(* Known finding S26 (open; reproduced on the real code: corpus/proto/S26_*.scn): a client joining
-   while the host's own download of an announced version is pending — first publication: the joiner
-   is never told; overwrite: the joiner keeps the host's OLD copy for ever. One publisher only. *)
-Theorem C06_join_during_first_download_refuted :
-  exists n tr c s',
-    arun (ainit n) tr = Some s' /\ published tr = [10] /\ only_publisher 1 tr /\ fresh_joins tr /\ aquiescent s' /\
-    known_join_window (ainit n) tr = true /\
-    c ∈ aconn s' /\ pstore s' 0 = Some 10 /\ pstore s' 1 = Some 10 /\ pstore s' c = None.
-Proof. exact AssetsProofs.join_during_download_refuted. Qed.
-
-Theorem C06_join_during_overwrite_refuted :
-  exists n tr c s',
-    arun (ainit n) tr = Some s' /\ published tr = [10; 20] /\ only_publisher 1 tr /\ fresh_joins tr /\ aquiescent s' /\
-    known_join_window (ainit n) tr = true /\
-    c ∈ aconn s' /\ pstore s' 0 = Some 20 /\ pstore s' 1 = Some 20 /\ pstore s' c = Some 10.
-Proof. exact AssetsProofs.join_during_overwrite_refuted. Qed.
+(* S26 (repaired by 8b1d5d0; reproduced on the real code before: corpus/proto/S26_*.scn): a client joining
+   while the host's own download of an announced version is pending used to be told nothing (first
+   publication) or given the host's OLD copy for ever (overwrite). The snapshot now hands on the owner
+   the host was told to fetch from; what a join costs and what it carries: *)
+Theorem C06_join_cost :
+  forall s c pre s',
+    awf s -> astep s (AJoin c pre) = Some s' ->
+    sent1 s (AJoin c pre) = (if decide (pstore s host <> None \/ ppending s host <> []) then 1 else 0)%nat /\
+    length (link s' host c) = sent1 s (AJoin c pre) /\
+    (forall o, o ∈ link s' host c -> if decide (ppending s host = []) then o = host else last (ppending s host) = Some o).
+Proof. exact AssetsProofs.join_cost. Qed.
 
 (* outside the property: publishers that are not separated by a drain may end quiescent and disagree *)
 Theorem C06_concurrent_publishers_may_disagree :
@@ -135,6 +131,5 @@ Print Assumptions C06_materials_hand_over_at_quiescence.
 Print Assumptions C06_materials_single_publisher.
 Print Assumptions C06_materials_no_echo.
 Print Assumptions C06_materials_traffic_bound.
-Print Assumptions C06_join_during_first_download_refuted.
-Print Assumptions C06_join_during_overwrite_refuted.
+Print Assumptions C06_join_cost.
 Print Assumptions C06_concurrent_publishers_may_disagree.
